@@ -338,26 +338,27 @@ Theorem no_aliases_rule_unchanged : forall r, realias_rule [] r = r.
 Proof. exact realias_rule_nil. Qed.
 Print Assumptions no_aliases_rule_unchanged.
 
-(* FINDING F120 (known_findings.txt).  "The generated posting has the rule line's account" is false
-   of the faithful model when an alias names the first component of the account the line resolved
-   to: `alias Tax=Liabilities:Tax`, `alias Liabilities=Debt:L`, rule line `(Tax:Fed) 1`.  At its
-   place the line names Liabilities:Tax:Fed (one alias step, like the ordinary posting `Tax:Fed`),
-   but the generated posting goes to Debt:L:Tax:Fed; likewise an alias defined AFTER the rule
-   redirects the rule's postings. *)
-Theorem generated_posting_has_line_account_refuted :
-  exists ds r t xs x,
-    ds = [DAlias [84%Z] [76; 58; 84]%Z; DAlias [76%Z] [68; 58; 76]%Z; DRule r; DTxn t] /\
-    process false [] [] [] ds = [Ok (XAccepted xs)] /\
-    In x xs /\ rule_made (x_post x) = true /\
-    ~ In (p_acct (x_post x)) (map rl_acct (r_lines r)).
-Proof.
-  pose (r := mkRule (PAcct [70%Z]) [mkLine [76; 58; 84; 58; 70]%Z PVirtual (Some (mkAmt 1 0%Z false None)) SUncleared]).
-  pose (t := mkTxn [120; 49]%Z SUncleared
-                   [mkPost [70%Z] PReal (Some (mkAmt 10 2%Z false (Some [36%Z]))) None None false false false;
-                    mkPost [67%Z] PReal (Some (mkAmt (-10) 2%Z false (Some [36%Z]))) None None false false false]).
-  eexists. exists r, t. eexists.
-  exists (mkX (mkPost [68; 58; 76; 58; 84; 58; 70]%Z PVirtual (Some (mkAmt 10 2%Z false (Some [36%Z]))) None None false true false) SUncleared).
-  split; [reflexivity|]. split; [vm_compute; reflexivity|]. split; [vm_compute; tauto|].
-  split; [reflexivity|]. vm_compute. intros [H|[]]. discriminate H.
-Qed.
+(* "The generated posting has the rule line's account" - the account the line names at its place in
+   the file.  Whether it holds depends on how extend_xact registers that account the second time,
+   which is read from the source on every run (Gen/AutoXactRoot.src_extend_realias):
+   - ReAliasNever (alias expansion switched off around the call - the repair of F120): it holds;
+   - ReAliasAlways (finding F120, known_findings.txt): it is false of the faithful model; witness
+     `alias T=L:T`, `alias L=D:L`, rule line `(T:F) 1` (= L:T:F at its place) posts to D:L:T:F, and an
+     alias defined after the rule redirects the rule's postings. *)
+Theorem generated_posting_has_line_account : src_extend_realias = ReAliasNever -> line_account_stmt.
+Proof. exact journal_extension_line_accounts. Qed.
+Print Assumptions generated_posting_has_line_account.
+
+Theorem generated_posting_has_line_account_refuted : src_extend_realias = ReAliasAlways -> realias_witness_stmt.
+Proof. exact realias_witness. Qed.
 Print Assumptions generated_posting_has_line_account_refuted.
+
+(* the one of the two that speaks about the code as it is; an unrecognised source shape proves nothing *)
+Theorem generated_posting_account_in_force :
+  match src_extend_realias with
+  | ReAliasNever => line_account_stmt
+  | ReAliasAlways => realias_witness_stmt
+  | ReAliasUnrecognised => False
+  end.
+Proof. exact account_in_force. Qed.
+Print Assumptions generated_posting_account_in_force.
